@@ -73,10 +73,10 @@ claim("C03",
       "finite angles); observed runs are validated by TraceLifecycle.",
       "TLA+ FilterLifecycle catalogue + TLC + replay over enumerated configurations, trace validation", "DESIGN.md section 5, C03")
 claim("C07",
-      "Vectorised.tla fixes the catalogue of 69 twin pairs (QuaternionArray vs Quaternion conversions, 9 matrix->quaternion "
+      "Vectorised.tla fixes the catalogue of 73 twin pairs (QuaternionArray vs Quaternion conversions, 9 matrix->quaternion "
       "variants, N-by-3-by-3 vs 3-by-3 functions, batch vs single metrics, N-sample constructors vs estimate() of every single-frame "
       "estimator and option) and the arrangements of six row classes (generic, half-turn, near-half-turn, near-identity, identity) "
-      "over N in {1,2,5}, with the invariant RowLocal; TLC enumerates all 18k (pair, arrangement) cases; the harness concretises "
+      "over N in {1,2,3,4,5} (3 and 4 make the arrays square: shape-based dispatch is ambiguous there), with the invariant RowLocal; TLC enumerates all (pair, arrangement) cases; the harness concretises "
       "them with exact rows and requires row i of the array path to equal the scalar path within 1e-12 (NaN pattern included, "
       "sign-free for eigen-solvers), plus one-sample constructors vs one-row batches with options honoured (weights, order='S', frames, "
       "representations), in three data forms (float, integer dtype, non-normalised).",
@@ -85,7 +85,7 @@ claim("C06",
       "FilterLifecycle.tla with two instances (Create from an initial sample / Update / Batch / Drop) defines the abstract state "
       "(cfg, consumed history); TLC checks OneRowPerSample, BatchEqualsStream and the action property Isolation over all "
       "interleavings of 2 instances x 3 sample ids x histories <= 3 exhaustively and generates longer behaviours by -simulate; the "
-      "harness replays every behaviour on real objects of 22 streaming-capable configurations (Madgwick, Mahony, EKF incl. "
+      "harness replays every behaviour on real objects of 53 configurations (batch-only Complementary / FKF on their Batch actions; Madgwick, Mahony, EKF incl. "
       "magnetometer, UKF, AQUA incl. adaptive, ROLEQ, Fourati, AngularRate; caller-shared q0 / b0 / P arrays) with a second class "
       "interleaved, twice, and enforces abstract-state determinism: equal abstract state => attitudes and carried state (P, b, "
       "alpha) equal within 1e-12, repeats bit-identical.",
@@ -114,13 +114,15 @@ claim("C08",
       "(ThetaSquared, SeriesLowOrders); TLC emits the exact cases; the harness checks AngularRate closed/series (update, batch, "
       "k steps vs one step of k dt), the null-accelerometer step of Madgwick/Mahony(incl. carried bias)/AQUA IMU+MARG, EKF.f, "
       "ROLEQ.attitude_propagation against the exact values, plus seeded in-range runs up to 400 steps, 2O orbits, the series "
-      "remainder bound and monotone improvement, and angular_velocities integrating back.",
+      "remainder bound and monotone improvement, and angular_velocities integrating back (also from scalar-last storage). StepSource.tla specifies "
+      "where a call takes its step size from (object's own Dt / frequency, or the one named in the call, never remembered); its 156 call "
+      "schedules are replayed on live Madgwick/Mahony/AQUA/ROLEQ/AngularRate objects.",
       "TLA+ Integrator + TLC + exact replay (bigint/Fraction mirror for realistic step sizes)", "DESIGN.md section 5, C08")
 claim("C18",
       "Metrics.tla expresses every metric through the rational C2(p,q) = cos^2(t/2) and checks, on all 110 592 triples of 2O in exact "
       "integers, non-negativity, symmetry, sign invariance, zero-iff-same-rotation, left and right invariance, the trace form of "
       "the chordal distance and the triangle inequality (integer angle table); TLC emits the pair table; the harness compares all "
-      "seven functions (single, swapped, negated, N-row) with the closed forms in t on 2O x 2O (exact angles), a rational grid and "
+      "seven functions (single, swapped, negated, 2-, 3- and 4-row arrays) with the closed forms in t on 2O x 2O (exact angles), a rational grid and "
       "thin pairs (1e-4 rad .. pi - 1e-4 rad via the bigint mirror), and checks bi-invariance and triangle inequalities on seeded "
       "float triples.",
       "TLA+ Metrics + TLC (exhaustive over 2O^3) + exact replay", "DESIGN.md section 5, C18")
